@@ -28,6 +28,13 @@ func perturbHook(loop *eventloop.EventLoop, name string, objs ...interface{}) {
 	x := atomic.AddUint64(&perturbCtr, 0x9E3779B97F4A7C15)
 	x = (x ^ (x >> 30)) * 0xBF58476D1CE4E5B9
 	x ^= x >> 27
+	switch name { // the hand-over points between the run thread and its controller: linger there more often
+	case "run_exit", "run_leave", "stop_return", "start_go", "setrunning", "term_flag":
+		if x%3 == 0 {
+			time.Sleep(time.Duration(1+(x>>9)%120) * time.Microsecond)
+			return
+		}
+	}
 	switch {
 	case x%6 == 0:
 		runtime.Gosched()
@@ -502,7 +509,9 @@ func freeCount(r *lib.Rand) *freeRun {
 // stop-during-run: Stop() from another goroutine while Run() is busy with (possibly its last) work
 func freeStopDuringRun(r *lib.Rand) *freeRun {
 	nt, busy, delay := r.Intn(3), r.Intn(1500), r.Intn(1200)
-	f := newFreeRun("stop-during-run", fmt.Sprintf("timeouts=%d busy=%dus stop-after=%dus", nt, busy, delay))
+	restartAtOnce, postPause := r.Chance(50), r.Intn(300)
+	d0, d1, d2 := r.Intn(2), r.Intn(2), r.Intn(2)
+	f := newFreeRun("stop-during-run", fmt.Sprintf("timeouts=%d busy=%dus stop-after=%dus restart-at-once=%v", nt, busy, delay, restartAtOnce))
 	f.loop.Run(func(vm *goja.Runtime) { f.install(vm) })
 	began := make(chan struct{})
 	runDone := make(chan struct{})
@@ -511,7 +520,7 @@ func freeStopDuringRun(r *lib.Rand) *freeRun {
 			f.enter("Run fn")
 			close(began)
 			for i := 0; i < nt; i++ {
-				vm.RunString(fmt.Sprintf("setTimeout(function(){ __t(%d); __busy(%d) }, %d)", i, busy/2, r.Intn(2)))
+				vm.RunString(fmt.Sprintf("setTimeout(function(){ __t(%d); __busy(%d) }, %d)", i, busy/2, []int{d0, d1, d2}[i]))
 			}
 			vm.RunString(fmt.Sprintf("__busy(%d)", busy))
 			f.leave("Run fn")
@@ -523,16 +532,152 @@ func freeStopDuringRun(r *lib.Rand) *freeRun {
 	if _, ok := f.stop(r); !ok {
 		return f
 	}
+	if restartAtOnce { // Stop() has returned: Start() is allowed, even though the other goroutine is still on its way out of Run()
+		f.start()
+		for q := 0; q < 20; q++ {
+			f.submit(1, q, nil)
+			time.Sleep(30 * time.Microsecond)
+		}
+		select {
+		case <-runDone:
+		case <-time.After(3 * time.Second):
+			f.fail("free-run-did-not-return-after-stop", "Run() still blocked 3 s after Stop() returned")
+			return f
+		}
+		f.sync("restarted at once")
+		if _, ok := f.stop(r); !ok {
+			return f
+		}
+		for q := 0; q < 5; q++ { // submitted to a stopped loop: they wait for the next start
+			f.submit(2, q, nil)
+		}
+		time.Sleep(time.Duration(500+postPause) * time.Microsecond) // nothing may begin now
+		f.start()
+		f.sync("second restart")
+		f.finish()
+		return f
+	}
 	select {
 	case <-runDone:
 	case <-time.After(3 * time.Second):
 		f.fail("free-run-did-not-return-after-stop", "Run() still blocked 3 s after Stop() returned")
 		return f
 	}
-	time.Sleep(time.Duration(r.Intn(300)) * time.Microsecond)
+	time.Sleep(time.Duration(postPause) * time.Microsecond)
 	f.start()
 	f.sync("restart")
 	time.Sleep(2 * time.Millisecond)
+	f.finish()
+	return f
+}
+
+// stopnowait-at-quiescence: StopNoWait() from the last piece of work of a Run() (the loop leaves because nothing is left, not
+// because of the request); a later Run()/Start() with timers must behave like a fresh one
+func freeStopNoWaitAtQuiescence(r *lib.Rand) *freeRun {
+	mode, second := r.Intn(3), r.Intn(2)
+	f := newFreeRun("stopnowait-at-quiescence", fmt.Sprintf("mode=%d second=%d", mode, second))
+	f.loop.Run(func(vm *goja.Runtime) { f.install(vm) })
+	atomic.StoreInt32(&f.stopped, 0)
+	ok := f.within("free-run-did-not-return", "Run() whose only work calls StopNoWait()", 3*time.Second, func() {
+		f.loop.Run(func(vm *goja.Runtime) {
+			switch mode {
+			case 0: // from the function passed to Run, nothing scheduled
+				f.loop.StopNoWait()
+			case 1: // from the last timeout callback
+				vm.Set("__snw", func() { f.loop.StopNoWait() })
+				vm.RunString("setTimeout(function(){ __snw() }, 1)")
+			default: // from the last immediate
+				vm.Set("__snw", func() { f.loop.StopNoWait() })
+				vm.RunString("setImmediate(function(){ __snw() })")
+			}
+		})
+	})
+	if !ok {
+		return f
+	}
+	if second == 0 {
+		ok = f.within("free-run-did-not-return", "second Run() with one 3 ms timeout", 3*time.Second, func() {
+			f.loop.Run(func(vm *goja.Runtime) { vm.RunString("setTimeout(function(){ __t(1) }, 3)") })
+		})
+		f.mu.Lock()
+		n := f.fired[1]
+		f.mu.Unlock()
+		if ok && n != 1 {
+			f.fail("free-run-returned-before-quiescence", fmt.Sprintf("Run() returned although its 3 ms timeout had run %d times", n))
+		}
+	} else {
+		f.start()
+		f.loop.RunOnLoop(func(vm *goja.Runtime) { vm.RunString("setTimeout(function(){ __t(1) }, 2)") })
+		deadline := time.Now().Add(2 * time.Second)
+		for {
+			f.mu.Lock()
+			n := f.fired[1]
+			f.mu.Unlock()
+			if n > 0 {
+				break
+			}
+			if time.Now().After(deadline) {
+				f.fail("free-uncleared-timeout-never-ran", "a 2 ms timeout set on a restarted loop that was not stopped again did not run within 2 s")
+				break
+			}
+			time.Sleep(200 * time.Microsecond)
+		}
+		f.stop(r)
+	}
+	atomic.StoreInt32(&f.stopped, 1)
+	f.finish()
+	return f
+}
+
+// terminate-with-backlog: a long queue (functions, timer registrations) is waiting when Terminate() is called on a stopped
+// loop; Terminate runs what was accepted, and nothing that was requested before it returned runs after a restart
+func freeTerminateBacklog(r *lib.Rand) *freeRun {
+	n := []int{3, 200, 1030, 1500, 2600}[r.Intn(5)]
+	f := newFreeRun("terminate-with-backlog", fmt.Sprintf("queued=%d", n))
+	f.loop.Run(func(vm *goja.Runtime) { f.install(vm) })
+	if r.Chance(50) {
+		f.start()
+		f.sync("warm-up")
+		f.stop(r)
+	}
+	atomic.StoreInt32(&f.stopped, 1)
+	var late int32
+	for q := 0; q < n; q++ {
+		f.submit(0, q, nil)
+	}
+	afterTerm := func(what string) func(*goja.Runtime) {
+		return func(*goja.Runtime) {
+			if atomic.LoadInt32(&late) == 1 {
+				f.fail("free-ran-after-terminate", what+" requested before Terminate() returned ran after the restart")
+			}
+		}
+	}
+	f.loop.SetTimeout(afterTerm("a timeout"), time.Millisecond)
+	f.loop.SetInterval(afterTerm("an interval"), time.Millisecond)
+	atomic.StoreInt32(&f.stopped, 0)
+	if !f.within("free-terminate-did-not-return", "Terminate()", 5*time.Second, f.loop.Terminate) {
+		return f
+	}
+	atomic.StoreInt32(&late, 1)
+	atomic.StoreInt32(&f.stopped, 1)
+	f.mu.Lock()
+	ran := len(f.executed[0])
+	f.mu.Unlock()
+	if ran != n {
+		f.fail("free-accepted-not-run-by-terminate", fmt.Sprintf("%d of %d functions accepted before Terminate() had run when it returned", ran, n))
+	}
+	f.mu.Lock()
+	before := f.cbs
+	f.mu.Unlock()
+	f.start()
+	f.sync("restart")
+	time.Sleep(4 * time.Millisecond)
+	f.mu.Lock()
+	after := f.cbs
+	f.mu.Unlock()
+	if after != before {
+		f.fail("free-ran-after-terminate", fmt.Sprintf("%d functions queued before Terminate() ran after the restart", after-before))
+	}
 	f.finish()
 	return f
 }
@@ -618,17 +763,17 @@ func runFree(r *lib.Rand, n int, profile string, outPath string) ([]lib.ImplFail
 	stats := map[string]int{}
 	seen := map[string]bool{}
 	var out []lib.ImplFailure
-	kinds := []func(*lib.Rand) *freeRun{freeLifecycle, freeLifecycle, freeBurst, freeCount, freeStopDuringRun, freeExpiredCleared, freeSelfClear}
-	bias := map[string]int{"overlap": 0, "fifo": 2, "timers": 6, "count": 3, "stop": 4, "terminate": 5}[profile]
+	kinds := []func(*lib.Rand) *freeRun{freeLifecycle, freeLifecycle, freeBurst, freeCount, freeStopDuringRun, freeExpiredCleared, freeSelfClear, freeStopNoWaitAtQuiescence, freeTerminateBacklog}
+	bias := map[string][]int{"overlap": {0, 4}, "fifo": {2}, "timers": {6, 5}, "count": {3, 7}, "stop": {4, 7}, "terminate": {5, 8}}[profile]
 	for i := 0; i < n; i++ {
 		k := r.Intn(len(kinds))
-		if r.Chance(35) {
-			k = bias
+		if r.Chance(40) {
+			k = bias[r.Intn(len(bias))]
 		}
 		var f *freeRun
 		seed := r.U64()
 		// a crash inside a goroutine of the library cannot be recovered: leave the scenario behind for the replay
-		lib.Breadcrumb(outPath, fmt.Sprintf("free-running scenario %d: kind index %d (0,1 lifecycle; 2 burst; 3 count; 4 stop-during-run; 5 expired-then-cleared; 6 self-clear), scenario seed %d", i, k, seed))
+		lib.Breadcrumb(outPath, fmt.Sprintf("free-running scenario %d: kind index %d (0,1 lifecycle; 2 burst; 3 count; 4 stop-during-run; 5 expired-then-cleared; 6 self-clear; 7 stopnowait-at-quiescence; 8 terminate-with-backlog), scenario seed %d", i, k, seed))
 		func() {
 			defer func() {
 				if x := recover(); x != nil {
